@@ -6,6 +6,7 @@ CONSTANTS
   KVals <- KValsQ
   Eps <- Eps64
   MaxGenExtra = 4
+  SpanInterior = 6
 INVARIANT T_SpanUnique
 INVARIANT T_SpanAlgos
 INVARIANT T_BasisFuns
